@@ -52,7 +52,7 @@ class Prop(BaseProp):
     LEVEL = "exploration"
     RULE = ("random programs over the public writer API (text incl. multi-line with own leading spaces, field, "
             "bulleted/enumerated lists, directives nested to depth 8 with arguments, options, sub-sections (nested, re-titled), title changes, clear(), "
-            "str()/to_text() at random points 1-3 times in a row) for 9 titles x 5 header lists x section levels; "
+            "str()/to_text()/write_to_file(path | file object) at random points 1-3 times in a row) for 9 titles x 5 header lists x section levels; "
             "monitors: object-graph snapshot before/after every serialisation, consecutive serialisations equal, "
             "title frame, every id-carrying line indented by exactly 3*depth, options directly under their heading, "
             "ids in depth-first insertion order. Distinct = operation-kind sequence; non-trivial = >=1 directive of "
@@ -68,6 +68,11 @@ class Prop(BaseProp):
 
     def setup_worker(self):
         runner.cminx()
+
+    def teardown_worker(self):
+        import shutil
+        if hasattr(self, "_tmpd"):
+            shutil.rmtree(self._tmpd, ignore_errors=True)
 
     def contracts_case(self, res):
         """Runtime contracts on the real functions while the repository's own tests run (vf/pytest_contracts.py)."""
@@ -114,7 +119,27 @@ class Prop(BaseProp):
             before = json.dumps(snap(w), sort_keys=True, ensure_ascii=False)
             outs = []
             for j in range(k):
-                outs.append(str(w) if rng.random() < 0.5 else w.to_text())
+                form = rng.choice(["str", "to_text", "str", "to_text", "file-object", "path"])
+                res.see("serialisation_forms", form)
+                if form == "str":
+                    outs.append(str(w))
+                elif form == "to_text":
+                    outs.append(w.to_text())
+                elif form == "file-object":
+                    import io
+                    buf = io.StringIO()
+                    w.write_to_file(buf)
+                    outs.append(buf.getvalue())
+                else:
+                    # into a file that may already hold an earlier, longer serialisation of this document
+                    import os
+                    import tempfile
+                    if not hasattr(self, "_tmpd"):
+                        self._tmpd = tempfile.mkdtemp(prefix="vfc20_")
+                    pth = os.path.join(self._tmpd, f"doc{os.getpid()}.rst")
+                    w.write_to_file(rng.choice([pth, pth, " " + pth + " "]))
+                    with open(pth, encoding="utf-8", newline="") as fh:
+                        outs.append(fh.read())
                 after = json.dumps(snap(w), sort_keys=True, ensure_ascii=False)
                 res.count("purity_snapshots_compared")
                 res.count("serialisations")
